@@ -145,7 +145,26 @@ class Run:
     __slots__ = ("events", "raw", "kind", "details", "remaining", "exc", "obj", "pulled", "guard")
 
 
-def run(tname, b, cc=None, enc=None, strict=True, keep_raw=False, source=None):
+def make_root(root_path):
+    """'log.entry[3]' -> Path(PathNode('log'), PathNode('entry', 3))"""
+    import re
+
+    ns = loader.load()
+    nodes = []
+    for part in root_path.split("."):
+        m = re.match(r"^(.*)\[(\d+)\]$", part)
+        nodes.append(ns.PathNode(m.group(1), int(m.group(2))) if m else ns.PathNode(part))
+    return ns.Path(nodes)
+
+
+def strip_root(x, root_path):
+    """normalised paths are relative to the root: 'log.entry[3].tag' -> '.tag'"""
+    if isinstance(x, str) and (x == root_path or x.startswith(root_path + ".")):
+        return x[len(root_path):]
+    return x
+
+
+def run(tname, b, cc=None, enc=None, strict=True, keep_raw=False, source=None, root_path=None):
     """decode b as type tname; returns a Run.  kind is Done / an error kind / ESCAPE:<class> / GUARD"""
     ns = loader.load()
     t = ns.TYPES[tname] if isinstance(tname, str) else tname
@@ -154,6 +173,8 @@ def run(tname, b, cc=None, enc=None, strict=True, keep_raw=False, source=None):
         kw["command_code"] = ns.CC.get(int(cc), cc) if not hasattr(cc, "_value") else cc
     if enc:
         kw["parameter_encryption"] = True
+    if root_path:
+        kw["root_path"] = make_root(root_path)
     src = Counting(b) if source is None else source
     r = Run()
     r.events, r.raw, r.remaining, r.exc, r.obj, r.guard = [], [] if keep_raw else None, None, None, None, None
@@ -183,4 +204,7 @@ def run(tname, b, cc=None, enc=None, strict=True, keep_raw=False, source=None):
             except Exception as e2:  # noqa: BLE001
                 r.remaining = "ESCAPE:" + type(e2).__name__
     r.pulled = getattr(src, "pulled", None)
+    if root_path:
+        r.events = [tuple(strip_root(x, root_path) if i in (1,) and e[0] == "E" else x for i, x in enumerate(e)) if e[0] == "E" else (e[0], e[1], tuple((k, strip_root(v, root_path)) for k, v in e[2])) for e in r.events]
+        r.details = {k: strip_root(v, root_path) for k, v in r.details.items()}
     return r
